@@ -258,7 +258,28 @@ pub fn explore<H: Harness>(h: &H, cfg: &ExploreCfg) -> ExploreReport {
                             continue;
                         }
                         let prefix = item.prefix();
-                        let r = h.run(&prefix, &seen);
+                        // a panic that escapes the harness (an unguarded call into a poisoned h2 object, an oracle bug) must
+                        // neither kill the worker nor stall the others: it is reported as a violation of its own
+                        let r = match std::panic::catch_unwind(std::panic::AssertUnwindSafe(|| h.run(&prefix, &seen))) {
+                            Ok(r) => r,
+                            Err(p) => {
+                                let msg = crate::c11::panic_text(&p);
+                                ExecResult {
+                                    trace: prefix.iter().map(|&c| Pt { n: c + 1, c, tag: 0, free: true }).collect(),
+                                    violations: vec![Violation {
+                                        rule: "ENGINE.panic-escaped-harness".into(),
+                                        signature: msg.lines().next().unwrap_or("").chars().take(80).collect(),
+                                        what: format!("a panic escaped the harness: {}", msg.lines().next().unwrap_or("")),
+                                        replay: serde_json::json!({"harness": "engine", "choices": prefix}),
+                                    }],
+                                    obs_hash: 0,
+                                    counters: vec![],
+                                    diverged: None,
+                                    transitions: 0,
+                                    nontrivial: false,
+                                }
+                            }
+                        };
                         let choices: Vec<u32> = r.trace.iter().map(|p| p.c).collect();
                         agg.absorb(&r, &choices);
                         for v in r.violations {
